@@ -8,9 +8,9 @@ CLAIMED = {
  "C02": ("rapid stateful property-based testing on a virtual clock (testing/synctest): generated event sequences over every limiter stack, conservation invariants at every quiescent point, zero state at the end; plus generated cooperative schedules",
          "generated arrival/completion/cancel/sleep/burst sequences over default, blocking, deadline, queue (FIFO/LIFO, eviction), deprecated constructors and pools over all four strategies; after every event at quiescence the strategy busy count, the limiter's in-flight gauge and every partition bin must equal the harness's own count of outstanding tokens, listener!=nil iff ok; at the end zero state, empty backlog and full re-admission",
          "virtual clock (synctest) and quiescence detection are trusted; schedules are sampled, not exhausted; fixed pool observed as a black box", "4/C02"),
- "C03": ("rapid model-based (stateful) testing: acquire/release/SetLimit/add/remove sequences against a reference admission model, all counters compared after every operation",
+ "C03": ("rapid model-based (stateful) testing: acquire/release/SetLimit/add/remove sequences against a reference admission model, all counters compared after every operation; real-thread histories checked for linearizability (porcupine) against the same model; native fuzzing of the op sequences",
          "both partitioned strategies driven by generated operation sequences (unknown keys, overlapping predicates, dynamic add/remove, SetLimit with tokens held) and compared after every step with an executable model of the admission rule and the share arithmetic",
-         "sequential histories only (the strategy serialises operations under one lock; concurrent use is covered by C17's race check); float share arithmetic as documented: max(1, ceil(float64(total)*fraction))", "4/C03"),
+         "concurrent part is real-thread and therefore probabilistic; float share arithmetic as documented: max(1, ceil(float64(total)*fraction)); dynamic add/remove only in the sequential part", "4/C03"),
  "C04": ("rapid property-based testing: generated valid configurations and hostile sample sequences, bounds invariant and recover() after every sample",
          "every built-in algorithm (alone, windowed, traced) fed generated sample sequences incl. rtt 0 / 2^62, in-flight 0 / 2^31-1, all-drop windows; after each sample the estimate must be a finite integer within [floor, ceiling] and no panic may occur",
          "configurations restricted to the validity conditions the property lists", "4/C04"),
@@ -23,7 +23,7 @@ CLAIMED = {
  "C08": ("rapid metamorphic/differential testing: twin instances with identical jitter and history, final sample differing only in RTT",
          "two identically prepared instances (same seed for the library's jitter, same history) receive a final sample that differs only in RTT; the higher RTT must never give the higher estimate",
          "states with the estimate above the configured maximum excluded (initial <= max)", "4/C08"),
- "C10": ("generated and exhaustively enumerated cooperative schedules (spawn order + yield counts at schedule points) inside synctest bubbles; quiescence oracle at zero elapsed virtual time",
+ "C10": ("generated and exhaustively enumerated cooperative schedules (spawn order + yield counts at schedule points) inside synctest bubbles, plus a real-thread variant; quiescence oracle at zero elapsed virtual time",
          "a full limiter, releasing holders and 1-3 waiters started at one virtual instant; the harness owns the schedule (GOMAXPROCS=1, yields at library hook points and around an injected delegate); at quiescence with no time elapsed free capacity and a blocked waiter must not coexist. A small schedule space is enumerated exhaustively, larger ones sampled",
          "schedule control is cooperative: interleavings that need a preemption where no schedule point exists are not reached", "4/C10"),
  "C11": ("rapid model-based testing on a virtual clock: arrivals at distinct instants, releases, time-outs, cancellations against a reference backlog in the documented order",
